@@ -1330,4 +1330,113 @@ theorem render_endsWith_dotStar (pre : List Char) (hpre : pre = [] ∨ pre = ['^
           exact hm (by decide)
 
 
+
+/-! ## regexp_is_match: the cache never changes a row's answer -/
+
+section
+variable {R : Type} (compile : List Char → Option R) (isMatch : R → List Char → Bool)
+
+theorem rxLoop_eq_spec (rows : List RxRow) (cache : List (List Char × R))
+    (hc : ∀ k re, cacheGet cache k = some re → compile k = some re) :
+    rxLoop compile isMatch rows cache = rxSpecAll compile isMatch rows := by
+  induction rows generalizing cache with
+  | nil => rfl
+  | cons row rest ih =>
+    unfold rxLoop rxSpecAll rxRowSpec
+    cases hv : row.value with
+    | none => simp [ih cache hc]
+    | some v =>
+      cases hp : row.pattern with
+      | none => simp [ih cache hc]
+      | some p =>
+        simp only []
+        by_cases hcp : completePattern p row.flag = []
+        · simp [hcp, ih cache hc]
+        · simp only [hcp, if_false]
+          cases hg : cacheGet cache (completePattern p row.flag) with
+          | some re =>
+            simp only [hc _ _ hg, ih cache hc]
+          | none =>
+            cases hcomp : compile (completePattern p row.flag) with
+            | none => rfl
+            | some re =>
+              simp only []
+              rw [ih]
+              intro k re' hk
+              unfold cacheGet at hk
+              simp only [List.find?_cons] at hk
+              by_cases hkeq : (completePattern p row.flag == k) = true
+              · simp only [hkeq] at hk
+                simp only [Option.map_some, Option.some.injEq] at hk
+                rw [← eq_of_beq hkeq, ← hk]; exact hcomp
+              · simp only [hkeq] at hk
+                exact hc k re' hk
+
+theorem rxSpecAll_eq_some_iff (rows : List RxRow) (out : List (Option Bool)) :
+    rxSpecAll compile isMatch rows = some out ↔ rows.map (rxRowSpec compile isMatch) = out.map some := by
+  induction rows generalizing out with
+  | nil => cases out <;> simp [rxSpecAll]
+  | cons row rest ih =>
+    unfold rxSpecAll
+    cases h : rxRowSpec compile isMatch row with
+    | none => cases out <;> simp [h]
+    | some o =>
+      cases out with
+      | nil => simp [h]
+      | cons o' out' =>
+        simp only [Option.map_eq_some_iff, List.cons.injEq, List.map_cons, h, Option.some.injEq]
+        constructor
+        · rintro ⟨a, ha, rfl, rfl⟩
+          exact ⟨rfl, (ih a).mp ha⟩
+        · rintro ⟨rfl, h2⟩
+          exact ⟨out', (ih out').mpr h2, rfl, rfl⟩
+
+theorem regexpIsMatchModel_eq_spec (rows : List RxRow) :
+    regexpIsMatchModel compile isMatch rows = rxSpecAll compile isMatch rows :=
+  rxLoop_eq_spec compile isMatch rows [] (fun k re h => by simp [cacheGet] at h)
+
+theorem rxSpec_rows_independent (rows : List RxRow) (out : List (Option Bool))
+    (h : rxSpecAll compile isMatch rows = some out) :
+    out.length = rows.length ∧
+    ∀ i (h1 : i < rows.length) (h2 : i < out.length), rxRowSpec compile isMatch rows[i] = some out[i] := by
+  rw [rxSpecAll_eq_some_iff] at h
+  have hl : out.length = rows.length := by
+    have := congrArg List.length h; simpa using this.symm
+  refine ⟨hl, fun i h1 h2 => ?_⟩
+  have := congrArg (fun l => l[i]?) h
+  simpa [List.getElem?_map, List.getElem?_eq_getElem h1, List.getElem?_eq_getElem h2] using this
+
+theorem rxSpec_perm (rows rows' : List RxRow) (out : List (Option Bool)) (hp : rows.Perm rows')
+    (h : rxSpecAll compile isMatch rows = some out) :
+    ∃ out', rxSpecAll compile isMatch rows' = some out' ∧ out.Perm out' := by
+  rw [rxSpecAll_eq_some_iff] at h
+  refine ⟨rows'.filterMap (rxRowSpec compile isMatch), ?_, ?_⟩
+  · rw [rxSpecAll_eq_some_iff]
+    have hall : ∀ r ∈ rows', ∃ o, rxRowSpec compile isMatch r = some o := by
+      intro r hr
+      have hr' : r ∈ rows := hp.mem_iff.mpr hr
+      have : rxRowSpec compile isMatch r ∈ rows.map (rxRowSpec compile isMatch) := List.mem_map_of_mem hr'
+      rw [h] at this
+      obtain ⟨o, _, ho⟩ := List.mem_map.mp this
+      exact ⟨o, ho.symm⟩
+    clear h hp
+    induction rows' with
+    | nil => rfl
+    | cons r rest ih =>
+      obtain ⟨o, ho⟩ := hall r (by simp)
+      simp only [List.map_cons, List.filterMap_cons, ho]
+      rw [ih (fun r' hr' => hall r' (by simp [hr']))]
+  · have h1 : rows.filterMap (rxRowSpec compile isMatch) = out := by
+      have := congrArg (List.filterMap id) h
+      simpa [List.filterMap_map] using this
+    rw [← h1]
+    exact hp.filterMap _
+
+theorem completePattern_flag_ne (p f : List Char) : completePattern p (some f) ≠ completePattern p none := by
+  intro h
+  have := congrArg List.length h
+  simp [completePattern] at this
+  omega
+end
+
 end ArrowModel.C20
